@@ -19,7 +19,7 @@ func runRaceSuite(seed uint64, n int, out *Out, stats *Stats) {
 		set := pickSettings(r)
 		set.Interval = int64(time.Second)
 		set.Limit = 1440
-		set.Timeout = 200 * time.Millisecond
+		set.Timeout = 2 * time.Second
 		w := &World{r: r, set: set, stats: stats, mode: "honest"}
 		for k := 0; k < 5; k++ {
 			w.wallets = append(w.wallets, NewWallet(k))
